@@ -138,6 +138,11 @@ impl Board {
     }
 
     pub fn push_en_passant_target(&mut self, target_square: Bitboard) -> Bitboard {
+        // The new target replaces the previous one: retire the previous target's key
+        // so that the hash only ever reflects the current en passant target.
+        let previous_target = self.move_info.peek_en_passant_target();
+        self.position_info
+            .update_zobrist_hash_toggle_en_passant_target(previous_target);
         self.position_info
             .update_zobrist_hash_toggle_en_passant_target(target_square);
         self.move_info.push_en_passant_target(target_square)
@@ -151,6 +156,10 @@ impl Board {
         let target_square = self.move_info.pop_en_passant_target();
         self.position_info
             .update_zobrist_hash_toggle_en_passant_target(target_square);
+        // Restore the key of the target that is current again.
+        let restored_target = self.move_info.peek_en_passant_target();
+        self.position_info
+            .update_zobrist_hash_toggle_en_passant_target(restored_target);
         target_square
     }
 
